@@ -44,7 +44,9 @@ RULE = (
     "Long-history families (long: policy object driven directly; rle_long: behind RateLimitedEntity): one policy object "
     "sees a saturating stream sized for 1300-4500 admissions (high rates / 1-50 ms windows, 1.3-3x overload, +-1 ns jitter, "
     "rare idle periods, 8 % probe / query ops), same integer-ns oracles; non-trivial: > 1024 admissions and >= 1 denial. "
-    "Simulation families: sender-side Event.cancel() of requests strictly after their arrival (40 % of rle / inductor cases); "
+    "Simulation families: in 35 % of the cases (30 % of rle_long) the limiter entities are renamed after construction "
+    "(entity.name = ...), before the run or at an instant during it while they hold no queued request; "
+    "sender-side Event.cancel() of requests strictly after their arrival (40 % of rle / inductor cases); "
     "<= 60 tagged requests injected pre-run or by a feeder entity into RateLimitedEntity (every "
     "policy, queue capacity 0-5), Inductor, two DistributedRateLimiter instances over one KVStore with latency > 0, "
     "NullRateLimiter. Non-trivial (simulation families): >= 1 request queued or dropped (dist: >= 1 forwarded and >= 1 "
@@ -53,6 +55,8 @@ RULE = (
 ASSUMPTIONS = [
     "arrival instants are nondecreasing and >= 0 (policies are not asked about the past); absolute times up to ~4e9 s "
     "(time origins 0, 1 day, 1e9 s, 1.7e9 s, 1.727e9 s, 4e9 s; Simulation.start_time set accordingly)",
+    "a limiter is renamed during the run only at an instant at which its queue is empty (a pending drain poll carries the "
+    "old name in its event type and HEAD stops recognising it, which is a misuse outside the property)",
     "sender-side Event.cancel() is only issued strictly after the request's arrival instant; on HEAD that has no effect "
     "on a delivered request, which is therefore still owed exactly one of forwarded / queued / dropped",
     "parameters are positive: rates in [0.3, 1e4]/s, capacity >= 1 (initial_tokens may exceed capacity: the bucket must still never hold more than capacity), windows >= 1 ms",
@@ -66,7 +70,7 @@ ASSUMPTIONS = [
     "(Inductor: (4 * queue_capacity + 8) * largest inter-arrival gap + 1 s); kept alive by a non-daemon sentinel event, no end_time",
     "DistributedRateLimiter is checked for exactly-once and order only (no global bound is stated for it)",
 ]
-MUST_OBSERVE = ["acquires_checked", "tua_probes", "requests_tracked", "cancels_on_queued_requests", "histories_over_1024_admissions", "histories_over_4096_admissions"]
+MUST_OBSERVE = ["acquires_checked", "tua_probes", "requests_tracked", "cancels_on_queued_requests", "histories_over_1024_admissions", "histories_over_4096_admissions", "renames_applied"]
 
 NS = 1_000_000_000
 
@@ -389,6 +393,7 @@ def gen_rle_long(rng: random.Random, tier: str) -> dict:
     start = rng.choice([0, 0, 1_700_000_000 * NS])
     origin = -(-start // P) * P
     target = rng.choice([1300, 1300, 2200])
+    rename = {"name": "tenant-a/limiter", "at": None} if rng.random() < 0.3 else None
     return {
         "limiter": "rle",
         "policy": spec,
@@ -397,6 +402,7 @@ def gen_rle_long(rng: random.Random, tier: str) -> dict:
         "arrivals": _long_times(rng, per, target, origin, 3 * P),
         "inject": rng.choice(["prerun", "feeder"]),
         "long": True,
+        **({"rename": rename} if rename else {}),
     }
 
 
@@ -883,7 +889,27 @@ def _harness_classes():
                 self.done.append((self.now.nanoseconds, rid))
             return []
 
-    _CLASSES.update(Recorder=Recorder, Feeder=Feeder, Canceller=Canceller)
+    class Renamer(Entity):
+        """Renames limiter entities during the run (Entity.name is a public attribute).
+
+        Only while the limiter holds no queued request: a pending drain poll carries the old name in its event
+        type, and HEAD itself stops recognising it after a rename (that is a misuse, not the property's subject).
+        """
+
+        def __init__(self, name, targets, new_name):
+            super().__init__(name)
+            self.targets = targets
+            self.new_name = new_name
+            self.done = 0
+
+        def handle_event(self, event):
+            for k, tgt in enumerate(self.targets):
+                if getattr(tgt, "queue_depth", 0) == 0:
+                    tgt.name = f"{self.new_name}{k}" if len(self.targets) > 1 else self.new_name
+                    self.done += 1
+            return []
+
+    _CLASSES.update(Recorder=Recorder, Feeder=Feeder, Canceller=Canceller, Renamer=Renamer)
     return _CLASSES
 
 
@@ -961,6 +987,10 @@ def gen_sim(which: str):
         else:
             case["arrivals"] = times
         case["inject"] = rng.choice(["prerun", "prerun", "feeder"])
+        if rng.random() < 0.35:
+            # the limiter is renamed after construction: before the run, or at some instant during it
+            at = None if rng.random() < 0.6 else times[rng.randrange(len(times))] + rng.choice([-1, 0, 1, P // 2])
+            case["rename"] = {"name": rng.choice(["tenant-a/limiter", "lim-b", "x"]), "at": at}
         if which in ("rle", "inductor") and rng.random() < 0.4:
             # sender-side cancels (Event.cancel() on the request event, e.g. a caller time-out) strictly after
             # the request was handed to the limiter: some hit requests waiting in its queue
@@ -1058,7 +1088,17 @@ def run_sim(case: dict) -> Result:
     registry: dict = {}
     canceller = H["Canceller"]("canceller", registry)
     ents.append(canceller)
+    rename = case.get("rename")
+    renamer = None
+    if rename and rename["at"] is None:
+        lim.name = rename["name"]  # renamed after construction, before the simulation is built
+        res.count("renames_applied")
+    elif rename:
+        renamer = H["Renamer"]("renamer", [lim], rename["name"])
+        ents.append(renamer)
     sim = Simulation(entities=ents, start_time=Instant(start_ns))
+    if renamer is not None:
+        sim.schedule(Event(time=Instant(max(start_ns, rename["at"])), event_type="rename", target=renamer))
     sim.schedule(Event(time=Instant(end_ns), event_type="stop", target=stopper))
     if feeder is None:
         for rid, t in enumerate(arrivals):
@@ -1080,6 +1120,8 @@ def run_sim(case: dict) -> Result:
     res.count("requests_tracked", len(arrivals))
     res.count("simulations_run")
     res.count("sender_cancels", len(canceller.done))
+    if renamer is not None:
+        res.count("renames_applied", renamer.done)
     if status == "spin":
         s = p.spin
         cyc = sorted({f"{a}@{b}" for a, b in s.recent})
@@ -1169,7 +1211,16 @@ def run_sim(case: dict) -> Result:
         res.inconclusive = f"{len(missing)} arrivals never delivered to the limiter (harness horizon)"
         return res
 
-    # ---- downstream view
+    # ---- downstream view: only the harness's own requests may arrive, as forwards of "req"
+    want_type = "req" if which == "null" else "forward::req"
+    phantom = [g for g in down.got if g[2] != want_type or not isinstance(g[3], int) or not 0 <= g[3] < len(arrivals)]
+    if phantom:
+        res.add(
+            "phantom-forward",
+            comp,
+            tag,
+            f"downstream received {len(phantom)} events nobody sent, first: type {phantom[0][2]!r} rid {phantom[0][3]!r} at {phantom[0][0]}ns",
+        )
     got = [g[3] for g in down.got]
     seen: dict[int, int] = {}
     for r in got:
@@ -1226,6 +1277,8 @@ def run_sim(case: dict) -> Result:
     shapes_seen: set = set()
     idle_instants = sorted(idle_at_end)
     for r in got:
+        if not isinstance(r, int) or not 0 <= r < len(arrivals):
+            continue  # phantom delivery, reported above
         if prev is not None and rank.get(r, -1) < rank.get(prev, -1):
             # r arrived earlier than prev but was forwarded later => prev overtook r
             over = prev
@@ -1311,7 +1364,18 @@ def run_dist(case: dict) -> Result:
         feeder = H["Feeder"]("feeder")
         ents.append(feeder)
     start_ns = case.get("start_ns", 0)
+    rename = case.get("rename")
+    renamer = None
+    if rename and rename["at"] is None:
+        for k, lim in enumerate(lims):
+            lim.name = f"{rename['name']}{k}"
+        res.count("renames_applied", 2)
+    elif rename:
+        renamer = H["Renamer"]("renamer", lims, rename["name"])
+        ents.append(renamer)
     sim = Simulation(entities=ents, start_time=Instant(start_ns))
+    if renamer is not None:
+        sim.schedule(Event(time=Instant(max(start_ns, rename["at"])), event_type="rename", target=renamer))
     if feeder is None:
         for rid, (t, i) in enumerate(arrivals):
             sim.schedule(Event(time=Instant(t), event_type="req", target=lims[i], context={"metadata": {"rid": rid}}))
@@ -1329,6 +1393,12 @@ def run_dist(case: dict) -> Result:
     if status == "budget":
         res.inconclusive = "delivery budget exhausted"
         return res
+    if renamer is not None:
+        res.count("renames_applied", renamer.done)
+    for d in {id(x): x for x in downs}.values():
+        ph = [g for g in d.got if g[2] != "forward::req" or not isinstance(g[3], int) or not 0 <= g[3] < len(arrivals)]
+        if ph:
+            res.add("phantom-forward", comp, tag, f"downstream received {len(ph)} events nobody sent, first: {ph[0]}")
     total_f = total_d = 0
     for i, lim in enumerate(lims):
         s = lim.stats
